@@ -1,3 +1,4 @@
+import PcfgVerif.Generated.Session
 import PcfgVerif.Properties.SessionCore
 import PcfgVerif.Generated.CliOptions
 import PcfgVerif.Model.Omen
@@ -139,6 +140,17 @@ without it stopped early: nothing written to the session files (the `omen_guess_
 loop depends on whether a limit was given - which is what lets the session model, which has no limit, stand for limited sessions too -/
 theorem C15_limit_only_counts_down_and_stops :
     ∀ k ∈ Generated.Session.limitDependentStatements, k ∈ ["break", "count-down", "pass", "print-stderr", "return"] := by
+  decide
+
+/-- **a session resumes on the ruleset it was started on** (regenerated from `pcfg_guesser.py`): the name stored in the save file is the
+rule name the first run was given, as given (`-r group/name` included), `load_save` takes the rule name from that entry and from nowhere
+else, and a ruleset whose uuid differs from the saved one is refused -/
+theorem C15_resumes_on_its_own_ruleset :
+    Generated.Session.saveConfigSets.filter (fun t => t.2.1 == "rule_name" || t.2.1 == "uuid") =
+      [("main", "uuid", "pcfg.ruleset_info['uuid']"), ("create_save_config", "rule_name", "program_info['rule_name']")] ∧
+    Generated.Session.loadSaveAssigns.filter (fun t => t.1 == "rule_name") =
+      [("rule_name", "save_config.get('rule_info','rule_name')")] ∧
+    Generated.Session.uuidMismatchRefuses = true := by
   decide
 
 end Pcfg.C15
